@@ -95,7 +95,7 @@ def r5_forwarders(ctx):
         ok = len(rets) == 1 and isinstance(rets[0].value, ast.Call) and is_self_attr(rets[0].value.func, "__is_supertype__", selfname=rv) and [dotted(a) for a in rets[0].value.args] == [arg]
         ctx.ob(f"{m.key}:is-supertype", m.loc(), f"{c.name}.__subclasscheck__ is its __is_supertype__", ok, f"issubclass(X, {c.name}-type) no longer agrees with the subtype test used for dispatch")
         ic = c.methods.get("__instancecheck__")
-        if ic is not None and not any(isinstance(x, ast.Call) and call_name(x) in ("any", "all") for x in ast.walk(ic.node)):
+        if ic is not None and not any(isinstance(x, ast.Attribute) and x.attr in ("types", "__args__") for x in ast.walk(ic.node)):
             ctx.touch(ic)
             rv = recv_name(ic)
             arg = [p for p in ic.params if p != rv][0]
